@@ -163,6 +163,10 @@ pub fn run(ctx: &Ctx) {
             }
         }
     }
+    // parameter lists whose signature exceeds 65535 bytes (listed known finding): always exercised
+    for h in [HashId::Sha256_256, HashId::Shake256_256] {
+        eight.push(SignCase { hash: h, levels: vec![(1, 2); 8], seed: gen::SeedSpec::Random(8), counter: 5, counter_class: "siglen".into(), msg: gen::MsgSpec { len: 10, tag: 8 } });
+    }
     ctx.enumerate("eight_levels", eight.len() as u64, false, |i| eight[i as usize].clone(), |c| check_sign_verifies(c, c.counter as u8));
 
     // seed objects built through Seed::from([u8; 32]) (bytes beyond n are not part of the seed)
